@@ -43,7 +43,9 @@ D == /\ Log[l].e = "D"
      /\ quiet' = FALSE /\ UNCHANGED <<sent, bytes, slack>>
 Q == /\ Log[l].e = "Q" /\ quiet' = TRUE /\ UNCHANGED <<sent, delivered, bytes, slack>>
 
-Next == l <= N /\ (Reset \/ S \/ D \/ Q) /\ l' = l + 1
+\* the whole log has been read: say so (printing the marker is cheaper than having TLC print a 10^4-state counterexample to "l <= N")
+Done == l = N + 1 /\ PrintT("@@\"accepted\"") /\ l' = N + 2 /\ UNCHANGED <<sent, delivered, quiet, bytes, slack>>
+Next == (l <= N /\ (Reset \/ S \/ D \/ Q) /\ l' = l + 1) \/ Done
 Spec == Init /\ [][Next]_<<sent, delivered, quiet, bytes, slack, l>>
 
 \* ---- GwAbs, on the recorded run
@@ -52,6 +54,4 @@ QuietEqual == quiet => (IF bytes THEN delivered <= sent /\ sent - delivered <= s
 \* item numbers are queued in order 1, 2, ...
 SentInOrder == bytes \/ \A i \in 1..Len(sent) : sent[i] = i
 
-\* "violated" = the whole log was read
-NotAccepted == l <= N
 =============================================================================
